@@ -56,18 +56,25 @@ type pair struct{ A, B int }
 
 // lenLexKey(i): the i-th string in (length, lexicographic) order over the alphabet a..z.
 func lenLexKey(i int) string {
-	if i < 26 {
+	switch {
+	case i < 26:
 		return string(rune('a' + i))
+	case i < 26+676:
+		i -= 26
+		return string([]byte{byte('a' + i/26), byte('a' + i%26)})
 	}
-	i -= 26
-	return string([]byte{byte('a' + i/26), byte('a' + i%26)})
+	i -= 26 + 676
+	return string([]byte{byte('a' + i/676), byte('a' + i/26%26), byte('a' + i%26)})
 }
 
 func lenLexIdx(k string) int {
-	if len(k) == 1 {
+	switch len(k) {
+	case 1:
 		return int(k[0] - 'a')
+	case 2:
+		return 26 + int(k[0]-'a')*26 + int(k[1]-'a')
 	}
-	return 26 + int(k[0]-'a')*26 + int(k[1]-'a')
+	return 26 + 676 + int(k[0]-'a')*676 + int(k[1]-'a')*26 + int(k[2]-'a')
 }
 
 func ordinary[K interface {
@@ -149,10 +156,16 @@ func gen(r *sim.Rng, tier string) *sim.Case {
 	c.Params["start"] = start
 	c.Params["dist"] = r.Pick(4, 2, 2, 2, 2, 2)
 	dom := []int{16, 16, 16, 64, 200, 256}[r.N(6)]
+	if r.Pct(2) {
+		dom = 2000 // rare: a long list
+	}
 	c.Params["domain"] = dom
 	maxOps := 60
 	if dom > 16 {
 		maxOps = 40 + dom // enough inserts to build long lists
+	}
+	if dom > 256 {
+		maxOps = 900
 	}
 	if tier == "thorough" {
 		maxOps = 150
@@ -409,8 +422,8 @@ func execTyped[K any](c *sim.Case, ad *adapter[K], out *sim.WorkerOut, dg *engc.
 				maxLevel = nl
 			}
 		}
-		if mutating {
-			// full cross-check
+		if mutating && (domain <= 256 || idx%16 == 0 || idx == len(c.Ops)-1) {
+			// full cross-check (long lists: every 16th mutation and at the end)
 			for _, q := range []sim.Op{{Op: "Len"}, {Op: "Keys"}, {Op: "Values"}, {Op: "Range"}, {Op: "All"}, {Op: "Head"}} {
 				var v2 *sim.Violation
 				pv := engc.Call(site(q.Op), func() {
@@ -558,8 +571,8 @@ func exec(c *sim.Case, out *sim.WorkerOut) (*sim.Violation, bool) {
 	if domain < 16 {
 		domain = 16
 	}
-	if domain > 256 {
-		domain = 256
+	if domain > 2000 {
+		domain = 2000
 	}
 	smrand.Word = towerWords(c.P("dist"), c.EnvSeed)
 	smrand.Words, smrand.Sources = 0, 0
@@ -576,10 +589,10 @@ func exec(c *sim.Case, out *sim.WorkerOut) (*sim.Violation, bool) {
 			if i == 0 {
 				return "" // the zero value of the key type is a key like any other
 			}
-			return fmt.Sprintf("k%03d", i)
-		}, func(k string) int { var i int; fmt.Sscanf(k, "k%03d", &i); return i }), out, dg)
+			return fmt.Sprintf("k%04d", i)
+		}, func(k string) int { var i int; fmt.Sscanf(k, "k%04d", &i); return i }), out, dg)
 	case 2:
-		v, nt = execTyped(c, ordinary(start, func(i int) uint16 { return uint16(i * 257) }, func(k uint16) int { return int(k) / 257 }), out, dg)
+		v, nt = execTyped(c, ordinary(start, func(i int) uint16 { return uint16(i * 32) }, func(k uint16) int { return int(k) / 32 }), out, dg)
 	case 3:
 		v, nt = execTyped(c, withCmp(start, func(a, b int) int { return a - b }, func(i int) int { return i }, func(k int) int { return k }, func(i int) int { return i }), out, dg)
 	case 4:
@@ -591,7 +604,7 @@ func exec(c *sim.Case, out *sim.WorkerOut) (*sim.Violation, bool) {
 			}
 			return a.B - b.B
 		}
-		v, nt = execTyped(c, withCmp(start, cmp, func(i int) pair { return pair{i / 16, i % 16} }, func(k pair) int { return k.A*16 + k.B }, func(i int) int { return i }), out, dg)
+		v, nt = execTyped(c, withCmp(start, cmp, func(i int) pair { return pair{i / 64, i % 64} }, func(k pair) int { return k.A*64 + k.B }, func(i int) int { return i }), out, dg)
 	default:
 		cmp := func(a, b string) int {
 			if len(a) != len(b) {
